@@ -118,7 +118,7 @@ func (o *Obligation) BuildQuery() string {
 		for _, id := range ids {
 			t := x.rtypeUsed[id]
 			if used["rtype_size"] {
-				facts = append(facts, fmt.Sprintf("(= (rtype_size (- %d)) %d)", id, sizes.Sizeof(t)))
+				facts = append(facts, fmt.Sprintf("(= (rtype_size %d) %d)", id, sizes.Sizeof(t)))
 			}
 		}
 		if used["rtype_size"] {
@@ -284,6 +284,9 @@ func (s *Solvers) runOne(idx int, file string) solverResult {
 	switch first {
 	case "sat", "unsat":
 		res = first
+	}
+	if strings.Contains(string(out), "(error ") && !strings.Contains(string(out), "model is not available") {
+		res = "unknown" // a malformed query must never count as an answer
 	}
 	s.mu.Lock()
 	st := s.Stats[sc.name]
@@ -470,7 +473,7 @@ func (s *Solvers) solveBatch(queries []string, secs int, fallback bool) []solver
 			defer func() { <-sem }()
 			var sb strings.Builder
 			for k, u := range b {
-				fmt.Fprintf(&sb, "(reset)\n(set-option :timeout %d)\n(set-logic ALL)\n%s(echo \"==Q%d==\")\n(check-sat)\n", secs*1000, u.text, k)
+				fmt.Fprintf(&sb, "(reset)\n(echo \"==S%d==\")\n(set-option :timeout %d)\n(set-logic ALL)\n%s(echo \"==Q%d==\")\n(check-sat)\n", k, secs*1000, u.text, k)
 			}
 			s.mu.Lock()
 			s.n++
@@ -481,16 +484,31 @@ func (s *Solvers) solveBatch(queries []string, secs int, fallback bool) []solver
 			t0 := time.Now()
 			out := s.spawn([]string{"z3-new", file}, time.Duration(len(b)*secs+5)*time.Second)
 			el := time.Since(t0).Seconds()
-			parts := strings.Split(out, "==Q")
 			got := map[int]string{}
-			for _, p := range parts[1:] {
+			for _, seg := range strings.Split(out, "==S")[1:] {
 				var k int
-				var rest string
-				if i := strings.Index(p, "=="); i >= 0 {
-					fmt.Sscanf(p[:i], "%d", &k)
-					rest = strings.TrimSpace(p[i+2:])
+				i := strings.Index(seg, "==")
+				if i < 0 {
+					continue
 				}
-				first := strings.TrimSpace(strings.SplitN(rest, "\n", 2)[0])
+				fmt.Sscanf(seg[:i], "%d", &k)
+				body := seg[i+2:]
+				j := strings.Index(body, "==Q")
+				if j < 0 {
+					got[k] = "error: no answer: " + strings.TrimSpace(body)
+					continue
+				}
+				pre, post := body[:j], body[j:]
+				if e := strings.Index(post, "=="); e >= 0 {
+					post = post[e+2:]
+				}
+				if e := strings.Index(post, "=="); e >= 0 {
+					post = post[e+2:]
+				}
+				first := strings.TrimSpace(strings.SplitN(strings.TrimSpace(post), "\n", 2)[0])
+				if strings.Contains(pre, "(error ") {
+					first = "error: " + strings.TrimSpace(pre)
+				}
 				got[k] = first
 			}
 			s.mu.Lock()
